@@ -253,6 +253,44 @@ static int run_cases(const char* path, long skip){
         t << " threw=" << threw; c << " threw=" << threw;   // (same token on both lines; the model predicts it)
       }
     }
+    else if(kind == "notable"){   // notable h <function> [null] : a value-returning wrapper on a handle WITHOUT a table (zero-initialised,
+                                  // failed read, freed) or, with `null`, on the NULL handle. There is no C++ object to be the twin: the
+                                  // `t` line is what include/photospline/cinter/splinetable.h documents for that case.
+      std::string fn = w[3]; bool nullh = w.size() > 4 && w[4] == "null";
+      if(!nullh && H[h].data){ c << "generator-error:handle-has-a-table"; t << "-"; }
+      else{
+        const struct splinetable* p = nullh ? NULL : &H[h];
+        double x[4] = {0.25, 0.25, 0.25, 0.25}; int ce[4] = {-7, -7, -7, -7}; unsigned int dv[4] = {0, 0, 0, 0};
+        auto I = [&](uint64_t v, uint64_t doc){ c << "int=" << v; t << "int=" << doc; };
+        auto P = [&](const void* v){ c << "ptr=" << (v ? "nonnull" : "NULL"); t << "ptr=NULL"; };
+        auto D = [&](double v){ c << "dbl=" << (v != v ? std::string("nan") : hexd(v)); t << "dbl=nan"; };
+        if(fn == "splinetable_ndim") I(splinetable_ndim(p), 0);
+        else if(fn == "splinetable_order") I(splinetable_order(p, 0), 0);
+        else if(fn == "splinetable_nknots") I(splinetable_nknots(p, 0), 0);
+        else if(fn == "splinetable_knots") P(splinetable_knots(p, 0));
+        else if(fn == "splinetable_knot") D(splinetable_knot(p, 0, 0));
+        else if(fn == "splinetable_lower_extent") D(splinetable_lower_extent(p, 0));
+        else if(fn == "splinetable_upper_extent") D(splinetable_upper_extent(p, 0));
+        else if(fn == "splinetable_period") D(splinetable_period(p, 0));
+        else if(fn == "splinetable_ncoeffs") I(splinetable_ncoeffs(p, 0), 0);
+        else if(fn == "splinetable_total_ncoeffs") I(splinetable_total_ncoeffs(p), 0);
+        else if(fn == "splinetable_stride") I(splinetable_stride(p, 0), 0);
+        else if(fn == "splinetable_coefficients") P(splinetable_coefficients(p));
+        else if(fn == "tablesearchcenters"){
+          int rc = tablesearchcenters(p, x, ce); bool untouched = ce[0] == -7 && ce[1] == -7 && ce[2] == -7 && ce[3] == -7;
+          c << "int=" << rc << " centers=" << (untouched ? "untouched" : "written"); t << "int=0 centers=untouched";
+        }
+        else if(fn == "ndsplineeval"){ int z[4] = {0, 0, 0, 0}; D(ndsplineeval(p, x, z, 0)); }
+        else if(fn == "ndsplineeval_deriv"){ int z[4] = {0, 0, 0, 0}; D(ndsplineeval_deriv(p, x, z, dv)); }
+        else if(fn == "ndsplineeval_gradient"){
+          int z[4] = {0, 0, 0, 0}; double g[4] = {-777.0, -777.0, -777.0, -777.0};
+          ndsplineeval_gradient(p, x, z, g);
+          bool rest = g[1] == -777.0 && g[2] == -777.0 && g[3] == -777.0;
+          c << "g0=" << (g[0] != g[0] ? std::string("nan") : hexd(g[0])) << " rest=" << (rest ? "untouched" : "written"); t << "g0=nan rest=untouched";
+        }
+        else { c << "unknown-function"; t << "-"; }
+      }
+    }
     else if(kind == "conv"){      // conv h dim nk k0 k1 ...
       int dim = atoi(w[3].c_str()); size_t nk = atoi(w[4].c_str());
       std::vector<double> kn(nk ? nk : 1); for(size_t i = 0; i < nk; i++) kn[i] = atof(w[5 + i].c_str());
